@@ -22,7 +22,7 @@ pub fn stream_file(name: &str) -> Vec<u8> {
     let rows = [["0/1", "1/1", "0/0", "0|1"], ["0/0", "0/1", "1/1", "./."], ["1/1", "1/1", "0/1", "0/0"], ["0/1", "0/0", "0/0", "1/2"],
                 ["0/0", "0/0", "0/1", "1|1"], ["1|0", "0|1", "1|1", "0/0"], ["0/0", "1/1", "0/0", "0/1"], ["0/1", "0/1", "0/1", "0/1"]];
     let recs: Vec<gen::Rec> = rows.iter().enumerate().map(|(i, r)| gen::Rec {
-        contig: if i < 5 { "chr1".into() } else { "chr2".into() }, pos: (i + 1) as u64, bad: false, nogt: false,
+        contig: if i < 5 { "chr1".into() } else { "chr2".into() }, pos: (i + 1) as u64, bad: false, nogt: false, short_alt: false,
         gt: cols.iter().cloned().zip(r.iter().map(|s| s.to_string())).collect(),
     }).collect();
     let vcf = gen::vcf_text(&cols, &recs, true);
@@ -65,7 +65,7 @@ pub fn stream_file(name: &str) -> Vec<u8> {
                     // parse the text back into records for the BCF encoder
                     let recs: Vec<gen::Rec> = btext.lines().filter(|l| !l.starts_with('#')).map(|l| {
                         let f: Vec<&str> = l.split('\t').collect();
-                        gen::Rec { contig: f[0].into(), pos: f[1].parse().unwrap(), bad: false, nogt: false,
+                        gen::Rec { contig: f[0].into(), pos: f[1].parse().unwrap(), bad: false, nogt: false, short_alt: false,
                             gt: bcols.iter().cloned().zip(f[9..].iter().map(|s| s.to_string())).collect() }
                     }).collect();
                     gen::bgzf_chunks(&gen::own_bcf(&bcols, &recs), 20000)
@@ -216,6 +216,22 @@ pub fn run(case: &Value, ctx: &Ctx) -> Outcome {
             let sink = format!("{}/files/sink_{}_{}_{}", ctx.work, name, fail_at, std::process::id());
             std::fs::create_dir_all(format!("{}/files", ctx.work)).expect("mkdir");
             let limit = if fail_at >= 0 { Some(fail_at as u64) } else { None };
+            // a sink that is dead from the first byte, by other failure kinds than the size limit: a pipe nobody reads (EPIPE)
+            // and a full device (ENOSPC); every kind of failure must surface
+            if via_stdout && fail_at == 0 {
+                for kind in ["epipe", "enospc"] {
+                    for args in [vec!["view", "-O", fmt, "--precision", "6"], vec!["fold"]] {
+                        let r = cli::sfs_dead_stdout(ctx, &args, &input, kind);
+                        let d = || json!({"name": name, "args": args, "sink": kind, "code": r.code, "stderr": r.stderr.chars().take(300).collect::<String>()});
+                        if r.panicked() {
+                            out.fail(format!("stream/process-write/{kind}/panic"), d());
+                        } else {
+                            out.check(!r.ok(), || format!("stream/process-write/{kind}/ok-but-sink-failed"), d);
+                            out.check(r.ok() || !r.stderr.trim().is_empty(), || format!("stream/process-write/{kind}/silent-failure"), d);
+                        }
+                    }
+                }
+            }
             for tool in ["view"] {
                 let args: Vec<&str> = vec!["view", "-O", fmt, "--precision", "6"];
                 let (r, written) = cli::sfs_fsize(ctx, &args, &input, limit, &sink, via_stdout);
